@@ -2099,7 +2099,30 @@ fn shape_check(cx: &mut Ctx) {
     // the extract helpers and the arm of a name without a table entry
     let (ha, hb, hm) = (by_name(&sim.helpers), by_name(&zc.helpers), by_name(&model["H"]));
     if ha != hb {
-        cx.out.violation("C16:source:parsers-shape-differs:extract-helpers", "the extract helpers of the two RESP parsers differ (parsed type, error texts)", json!({"from_resp": ha, "from_resp_zero_copy": hb}));
+        // the site: which helper, which field (parsed type / text of a parse failure / literals), and the file of the
+        // module tree each twin was read from
+        let (ta, tb) = (shape::module_tree(&dir, PARSER_RS), shape::module_tree(&dir, COMMANDS_RS));
+        let file_of = |t: &shape::ModTree, fnname: &str| -> String {
+            t.files.iter().find(|f| std::fs::read_to_string(format!("{}/{}", dir, f)).map(|s| s.contains(&format!("fn {}(", fnname))).unwrap_or(false)).cloned().unwrap_or_else(|| "?".into())
+        };
+        let mut sites = Vec::new();
+        for n in ha.keys().chain(hb.keys()).collect::<BTreeSet<_>>() {
+            let (fa_, fb_) = (file_of(&ta, n), file_of(&tb, &format!("{}_zc", n)));
+            match (ha.get(n), hb.get(n)) {
+                (Some(x), Some(y)) => for f in ["ty", "perr", "lits"] {
+                    if x.get(f) != y.get(f) {
+                        sites.push(json!({"helper": n, "field": f, "from_resp": x.get(f).map(|v| readable(v)), "from_resp_zero_copy": y.get(f).map(|v| readable(v)), "from_resp_file": fa_, "from_resp_zero_copy_file": fb_}));
+                        cx.out.violation(&format!("C16:source:parsers-shape-differs:extract-helpers:{}:{}", n, f), "this extract helper differs between the two RESP parsers (ty: parsed type; perr: text of a parse failure; lits: every literal of the helper)",
+                            json!({"helper": n, "field": f, "from_resp": x.get(f).map(|v| readable(v)), "from_resp_zero_copy": y.get(f).map(|v| readable(v)), "from_resp_file": fa_, "from_resp_zero_copy_file": fb_}));
+                    }
+                },
+                (x, _) => {
+                    sites.push(json!({"helper": n, "field": "row", "in_from_resp_tree": x.is_some(), "in_from_resp_zero_copy_tree": hb.contains_key(n), "trees": [ta.files, tb.files]}));
+                    cx.out.violation(&format!("C16:source:parsers-shape-differs:extract-helpers:{}:row", n), "this extract helper was found in the module tree of one RESP parser only", json!({"helper": n, "in_from_resp_tree": x.is_some(), "in_from_resp_zero_copy_tree": hb.contains_key(n), "from_resp_tree": ta.files, "from_resp_zero_copy_tree": tb.files}));
+                }
+            }
+        }
+        cx.out.violation("C16:source:parsers-shape-differs:extract-helpers", "the extract helpers of the two RESP parsers differ (parsed type, error texts)", json!({"sites": sites, "from_resp": ha, "from_resp_zero_copy": hb}));
     }
     for n in ha.keys().chain(hm.keys()).collect::<BTreeSet<_>>() {
         match (ha.get(n), hm.get(n)) {
